@@ -339,17 +339,16 @@ def _interactive_session(args) -> dict:
 	failures = []
 	alive = 0
 	for label, source in inputs:
-		lines = source.rstrip('\n').split('\n')
-		if any(ln.strip() == 'exit' for ln in lines):
+		# the keyboard: the text line by line as typed (an empty line ends a submission, as in the real loop), then a valid
+		# text, then `exit`
+		typed = source.split('\n')
+		if any(ln == 'exit' for ln in typed):
 			continue
-		feed = iter([lines, [SENTINEL], ['exit']])
+		keys = iter(typed + ([''] if typed[-1] != '' else []) + [SENTINEL, '', 'exit'])
+		import rogw.tranp.bin.io as cli_io
+		org_readline = cli_io.readline
+		cli_io.readline = lambda *a, **k: next(keys)
 		org_tty = cli.tty
-
-		def fake_tty(prompt: str):
-			print(prompt)
-			return next(feed)
-
-		cli.tty = fake_tty
 		defs = transpiler_definitions(os.path.join(root, 'cache-it'))
 		defs.pop(to_fullyname(cli.SourceProvider), None)
 		defs.pop(to_fullyname(cli.ModuleMetaFactory), None)
@@ -362,6 +361,7 @@ def _interactive_session(args) -> dict:
 			crashed = f'{type(e).__name__}: {str(e)[:120]}'
 		finally:
 			cli.tty = org_tty
+			cli_io.readline = org_readline
 		text = out.getvalue()
 		if crashed is not None:
 			failures.append({'label': label, 'source': source, 'detail': f'the interactive loop ended with {crashed}', 'kind': crashed.split(":")[0]})
@@ -402,6 +402,9 @@ def run(ctx: Ctx) -> int:
 		inputs.append((f'soup:{i}', token_soup(rnd)))
 	for i, src in enumerate(PROGRAMS):
 		inputs.append((f'valid:{i}', src))
+	# texts without a statement: nothing at all, line breaks, blanks, a comment - an empty module is a valid module
+	for i, src in enumerate(['', '\n', '\n\n', '   ', '\t\n', '# nothing\n', '\n# nothing\n\n']):
+		inputs.append((f'blank:{i}', src))
 	nproc = 16
 	with ProcessPoolExecutor(max_workers=nproc) as ex:
 		records = [r for chunk in ex.map(_run_inputs, [(inputs[i::nproc],) for i in range(nproc)]) for r in chunk]
